@@ -42,6 +42,13 @@ def gen_case(rng, index, tier):
                                     'v2': 'file'},
                         alt_states={'v2': 'file'}, trash_volumes_env=False)
     workdirs = c01.setup_workdirs(L, rng, cwd_vol='')
+    if rng.random() < 0.35:
+        # the paths on which trashing fails belong to a uid/gid without a
+        # passwd/group entry (foreign disk, extracted tarball, deleted account)
+        L.add({'p': 'v2', 't': 'd', 'm': 0o755, 'o': [54321, 54322]})
+        for nd in L.nodes:
+            if nd['p'] in ('v2/.Trash', 'v2/.Trash-%d' % L.uid, 'v2/work'):
+                nd['o'] = [54321, 54322]
     n = rng.randint(1, 6)
     args = []
     used = set()
